@@ -41,16 +41,16 @@ CHECKS = {
         design="DESIGN.md §4 C04",
     ),
     "C05": dict(
-        rules="R05.1-R05.19",
-        what="every primitive bound to a literal C function name (~380 bindings) has a C declaration in mypyc/lib-rt of matching arity whose parameter/return types are ABI-compatible with the declared RPrimitives; declared error kinds agree with what the C body can return (ERR_NEVER vs `return NULL`, ERR_FALSE vs truth type, ERR_NEG_INT vs signed int; ERR_NEVER vs returning the result of a fallible callee); bindings made through helper functions and literal loops are resolved; in-place operators bound to in-place C APIs; the coerce truth table; the environment link of a nested function survives completion on a condition that consults only what the code following the link consults; result types without a spare error value never declare ERR_MAGIC; the defaults-setup chain searches the whole mro because the declaration is registered on an own-body test; a bound C function returns its error value only after a call that can have set an exception; an operator spelling is bound to the C function carrying that operator's word; loop-inlining specialisers translate the call's other arguments before the loop; pass order of compile_scc_to_ir; both try/finally lowerings reset the pending-return register on the non-return entries; lib-rt never passes an unchecked difference/parameter as a bytes size; sign tests on `index` parameters include 0 on the non-negative side; the str.encode/bytes.decode fast paths accept exactly CPython's aliases",
+        rules="R05.1-R05.20",
+        what="every primitive bound to a literal C function name (~380 bindings) has a C declaration in mypyc/lib-rt of matching arity whose parameter/return types are ABI-compatible with the declared RPrimitives; declared error kinds agree with what the C body can return (ERR_NEVER vs `return NULL`, ERR_FALSE vs truth type, ERR_NEG_INT vs signed int; ERR_NEVER vs returning the result of a fallible callee); bindings made through helper functions and literal loops are resolved; in-place operators bound to in-place C APIs; the coerce truth table; the environment link of a nested function survives completion on a condition that consults only what the code following the link consults; result types without a spare error value never declare ERR_MAGIC; the defaults-setup chain searches the whole mro because the declaration is registered on an own-body test; a bound C function returns its error value only after a call that can have set an exception; an operator spelling is bound to the C function carrying that operator's word; loop-inlining specialisers translate the call's other arguments before the loop; pass order of compile_scc_to_ir; both try/finally lowerings reset the pending-return register on the non-return entries; lib-rt never passes an unchecked difference/parameter as a bytes size; sign tests on `index` parameters include 0 on the non-negative side; the str.encode/bytes.decode fast paths accept exactly CPython's aliases; a lazily created loop-carried register of an irbuild loop is created only while unset (R05.20)",
         quant="programs x argument values x optimisation levels x build modes",
         technique="cross-language table check: Python AST of the primitive registry against clang's JSON AST of lib-rt; CFG ordering of the pass pipeline",
         note="Nothing about the translation of any construct is decided. Capsule-API slots (object-like macros) and conditionally compiled functions are only checked for existence. Borrow/steal agreement with C bodies would need an ownership analysis of C and is declined.",
         design="DESIGN.md §4 C05",
     ),
     "C06": dict(
-        rules="R06.1-R06.24, R05.3",
-        what="per-Op agreement of sources()/set_sources()/stolen() and PatchVisitor; borrow flag honoured by code generation; who may create IncRef/DecRef and which visit methods the post-refcount passes override; every emitter that initialises/traverses/clears/recycles instance storage covers the attributes of all classes in base_mro; memo keys of the exception transform; ERR_* exhaustiveness; definedness checks before every reading op; the two borrow-chain walks (lifetime scope, reassigned root) step through the same op kinds; a primitive's is_borrowed flag agrees with whether the bound C function takes a reference to a result it reads from a container slot / borrowing API; an argument declared stolen is given away on every exit of the C function (structured walk over clang's statement tree), and a function that gives a parameter away either owns it (declared stolen) or takes its own reference; the must-defined CFG has an unconditional edge to the handler of every normal successor; the generated constructor tests the failure value both calling conventions of __init__ produce; the definedness bitmap is cleared by `del`; attribute facts of __init__ are credited only to ops whose receiver is self; a stealing op that fails releases its operand (Cast: known finding); pass order of compile_scc_to_ir; conclusions from __init__ attribute facts respect the self-leak analysis, which looks for `self` in every operand-keeping op; lib-rt releases a replaced slot only after the store; glue code unboxes borrowed; preallocated comprehension results (known finding); refcount edge sets keep their side; classes whose compiled __new__/__del__ (own or a subclass's) run without a completed __init__ get no always-defined attributes; the spill pass takes a reference before storing a borrowed value in the environment; the items of a stolen tuple are unborrowed before a fallible op is emitted (known finding)",
+        rules="R06.1-R06.25, R05.3",
+        what="per-Op agreement of sources()/set_sources()/stolen() and PatchVisitor; borrow flag honoured by code generation; who may create IncRef/DecRef and which visit methods the post-refcount passes override; every emitter that initialises/traverses/clears/recycles instance storage covers the attributes of all classes in base_mro; memo keys of the exception transform; ERR_* exhaustiveness; definedness checks before every reading op; the two borrow-chain walks (lifetime scope, reassigned root) step through the same op kinds; a primitive's is_borrowed flag agrees with whether the bound C function takes a reference to a result it reads from a container slot / borrowing API; an argument declared stolen is given away on every exit of the C function (structured walk over clang's statement tree), and a function that gives a parameter away either owns it (declared stolen) or takes its own reference; the must-defined CFG has an unconditional edge to the handler of every normal successor; the generated constructor tests the failure value both calling conventions of __init__ produce; the definedness bitmap is cleared by `del`; attribute facts of __init__ are credited only to ops whose receiver is self; a stealing op that fails releases its operand (Cast: known finding); pass order of compile_scc_to_ir; conclusions from __init__ attribute facts respect the self-leak analysis, which looks for `self` in every operand-keeping op; lib-rt releases a replaced slot only after the store; glue code unboxes borrowed; preallocated comprehension results (known finding); refcount edge sets keep their side; classes whose compiled __new__/__del__ (own or a subclass's) run without a completed __init__ get no always-defined attributes; the spill pass takes a reference before storing a borrowed value in the environment; the items of a stolen tuple are unborrowed before a fallible op is emitted (known finding); lists obtained from Op.sources() are never written to (PrimitiveOp hands out its own list) (R06.25)",
         quant="function IR of all compiled programs, on every path",
         technique="sibling cross-check of the three declarations of each Op's operand set; who-may-create rule; CFG ordering of the pass pipeline; cross-language ownership check of the primitive registry against clang's AST of lib-rt (borrowed results, stolen arguments)",
         note="Reference-count balance of generated IR on every path needs the compiler to run on programs (translation validation by execution) and is not decided; the spill pass's balance argument is liveness-based and not decided.",
@@ -105,8 +105,8 @@ CHECKS = {
         design="DESIGN.md §4 C10",
     ),
     "C11": dict(
-        rules="R11.1-R11.17",
-        what="wire grammar of write equals wire grammar of read for 46 serializer classes and the helper pairs, down to librt primitives; field and flag label alignment; tag table integrity and dispatcher exhaustiveness; JSON key/attribute agreement and JSON==binary attribute sets; count/emit filter agreement; sorted iteration in interface serializers; order discipline (only sets may be written sorted); __eq__ fields and declared attributes covered by serialization; fix-up covers every by-reference field; optional fields are encoded by an identity test against None; the derived fields of a special alias are rebuilt together after load; verbatim JSON stores hold only JSON-representable declared types; what fix-up establishes on loaded functions a fresh analysis establishes too; every type TypeInfo's loaders re-create is handed to the type fixer",
+        rules="R11.1-R11.18",
+        what="wire grammar of write equals wire grammar of read for 46 serializer classes and the helper pairs, down to librt primitives; field and flag label alignment; tag table integrity and dispatcher exhaustiveness; JSON key/attribute agreement and JSON==binary attribute sets; count/emit filter agreement; sorted iteration in interface serializers; order discipline (only sets may be written sorted); __eq__ fields and declared attributes covered by serialization; fix-up covers every by-reference field; optional fields are encoded by an identity test against None; the derived fields of a special alias are rebuilt together after load; verbatim JSON stores hold only JSON-representable declared types; what fix-up establishes on loaded functions a fresh analysis establishes too; every type TypeInfo's loaders re-create is handed to the type fixer; a conditionally written JSON key depends only on the attribute it stores (R11.18)",
         quant="symbols, types and flag combinations of all modules",
         technique="wire-grammar extraction (abstract interpretation of serializer bodies in evaluation order) and structural term comparison; sibling cross-checks",
         note="Trusted base: the librt.internal primitive pairs round-trip their argument; extract_symbol consumes one tagged object; CPython evaluation order. Value-level inverses (ARG_KINDS[int(x.value)], bytes.fromhex(x.hex())) are not decided. One known finding (symbol tables serialized in sorted order) is listed in known_findings.json.",
